@@ -109,6 +109,7 @@ func debMachine(p *Prog, sc debScenario) *Machine {
 	}
 	m.Hooks["io/ioutil.NopCloser"] = m.Hooks["io.NopCloser"]
 	m.Hooks["archive/tar.NewReader"] = func(m *Machine, st *State, call *ssa.CallCommon, args []Val) ([]Val, bool) {
+		note(st, "tarnew:"+debProv(st, args[0]))
 		return []Val{opaque(st, "tar("+debProv(st, args[0])+")")}, true
 	}
 	tarHdr := extNamed(p, "archive/tar", "Header")
